@@ -6,6 +6,8 @@ package vlib
 import (
 	"encoding/json"
 	"fmt"
+	"io"
+	"log/slog"
 	"os"
 	"path/filepath"
 	"sort"
@@ -397,7 +399,7 @@ func (c *Ctx) Finish() int {
 		"wall_s":     float64(time.Since(c.start).Milliseconds()) / 1000,
 		"violations": unknown,
 	}
-	if ev["assumptions"] == nil {
+	if len(c.assumptions) == 0 {
 		ev["assumptions"] = []string{}
 	}
 	_ = os.MkdirAll(filepath.Join(root, "evidence"), 0o755)
@@ -509,4 +511,9 @@ func (c *Ctx) Watchdog(name string, d time.Duration, fn func()) bool {
 		c.Inconclusive("watchdog fired: " + name)
 		return false
 	}
+}
+
+// DiscardLogger returns a slog logger that drops everything.
+func DiscardLogger() *slog.Logger {
+	return slog.New(slog.NewTextHandler(io.Discard, &slog.HandlerOptions{Level: slog.LevelError + 10}))
 }
